@@ -17,7 +17,7 @@ from vf.core import Result, through_code_under_test
 
 ID = "C18"
 LEVEL = "exploration"
-BUDGET = {"quick": 9600, "thorough": 96000}
+BUDGET = {"quick": 24000, "thorough": 240000}
 MIN_NONTRIVIAL = {"quick": 100, "thorough": 1000}
 RULE = (
     "Hypothesis draws (a) histories as in C09 (two systems, pool of states, call / assign / copy / read-only copy / "
